@@ -1188,10 +1188,13 @@ def derive_combine32(P, cname='pixman-combine32.c'):
     text_h = '#include <stdint.h>\n' + '\n'.join(decl) + '\n' + '\n'.join(out)
     key = hashlib.sha1((text_h + src).encode()).hexdigest()[:12]
     d = os.path.join(build.cache_dir(), 'gen', 'c32-' + key); os.makedirs(d, exist_ok=True)
-    with open(os.path.join(d, 'pixman-combine32.h'), 'w') as f:
-        f.write(text_h)
-    with open(os.path.join(d, cname), 'w') as f:
-        f.write(src)
+    for nm_, tx_ in (('pixman-combine32.h', text_h), (cname, src)):
+        pth = os.path.join(d, nm_)
+        if not os.path.exists(pth):
+            tmp = pth + '.tmp%d' % os.getpid()
+            with open(tmp, 'w') as f:
+                f.write(tx_)
+            os.replace(tmp, pth)
     p = build.shim_facts(os.path.join(d, cname), mode='A', flags=['-DHAVE_CONFIG_H'], loops=True)
     import json
     S_ = _facts.Program({cname + '(derived)': p})
